@@ -112,7 +112,7 @@ def readable_equal(mine, theirs):
     return True
 
 
-def c09_case(acc, sp, kw, rng, tier):
+def c09_case(acc, sp, kw, rng, tier, twin=False):
     from nasim.envs.state import State
     from nasim.envs.observation import Observation
     z = SIZES[tier]
@@ -273,6 +273,10 @@ def c09_case(acc, sp, kw, rng, tier):
             acc.violation("twin_state_diverged", "twin_state_diverged", {},
                           W(f"step {k}"))
             break
+    if not twin and kw.get("route") in ("yaml", "dict"):
+        from ..twins import any_twin
+        c09_case(acc, any_twin(sp, rng), kw, rng, tier, twin=True)
+        acc.count("twins_checked_right_after_original")
     if len(acc.samples) < 3:
         acc.sample({"scenario": sp.summary(), "layout(b0,b1,os,srv,proc)":
                     lay.key(), "row_width": want_w,
@@ -471,6 +475,32 @@ def c10_case(acc, sp, kw, rng, tier):
             for _ in range(z["samples"]):
                 try_step(space.sample(), "sample()")
         acc.count("mode_combinations")
+    if kw.get("route") in ("yaml", "dict"):
+        # a twin of the same shape (renamed / re-ordered names) built right
+        # after the original: every member of its action space is stepped
+        from ..twins import any_twin
+        tw = any_twin(sp, rng)
+        T = Subject(tw, route=kw["route"], fully_obs=rng.random() < 0.5)
+        T.reset()
+        for i in range(T.n_actions):
+            acc.evaluations += 1
+            x = rng.choice([int(i), np.int64(i)])
+            if not T.env.action_space.contains(x):
+                continue
+            try:
+                o = T.env.step(x)[0]
+            except Exception as e:      # noqa
+                acc.violation("member_rejected", "member_rejected:twin",
+                              f"{type(e).__name__}: {str(e)[:120]} (scenario "
+                              "built right after one of the same shape)",
+                              wit(tw, kw, T.modes, "twin step"))
+                break
+            if not T.env.observation_space.contains(o):
+                acc.violation("observation_contract",
+                              "observation_contract:twin", {},
+                              wit(tw, kw, T.modes, "twin obs"))
+                break
+        acc.count("twins_stepped_right_after_original")
     if len(acc.samples) < 3:
         acc.sample({"scenario": sp.summary(),
                     "observation_space": [float(env.observation_space.low.min()),
